@@ -19,6 +19,8 @@ let run lines =
   | "spec06" -> Model.run_spec06 lines
   | "model08" -> Model.run_model08 lines
   | "spec08" -> Model.run_spec08 lines
+  | "model18" -> Model.run_model18 lines
+  | "spec18" -> Model.run_spec18 lines
   | m -> failwith ("unknown mode " ^ m)
 
 let flush_script acc =
